@@ -253,7 +253,7 @@ def run_check(
             known_seen[sig] += len(lst)
             continue
         entry = lst[0]
-        if minimise is not None and time.time() - t0 < budget.get("minimise_deadline_s", 240) and len(new_violations) < 6:
+        if minimise is not None and not os.environ.get("VERIF_NO_MINIMISE") and time.time() - t0 < budget.get("minimise_deadline_s", 240) and len(new_violations) < 6:
             try:
                 entry = minimise(entry)
             except Exception:  # noqa: BLE001
